@@ -45,7 +45,7 @@ type PScenario struct {
 	HDefer     bool      `json:"hdefer"` // the handler has `defer span.End()`
 	RT         bool      `json:"rt"`
 	RecordOnly bool      `json:"recordOnly"`
-	Flavor     int       `json:"flavor"` // 0: panic(value), 1: nil pointer dereference (runtime error)
+	Flavor     int       `json:"flavor"` // 0: panic(value), 1: runtime error (nil pointer dereference; index out of range while runtime/trace runs)
 	Callers    []PCaller `json:"callers"`
 	Seed       int64     `json:"seed"`
 }
@@ -84,9 +84,16 @@ func (g *userGate) hit(gate string, p int) {
 	}
 	g.raised.Store(true)
 	g.st.emit(map[string]any{"ev": "UPanic", "proc": pi.name, "gate": gate, "p": p})
-	if g.ps.Flavor == 1 { // the classic typed-nil mistake: a method dereferences a nil receiver
+	if g.ps.Flavor == 1 && !g.ps.RT { // the classic typed-nil mistake: a method dereferences a nil receiver
 		var q *PScenario
 		_ = q.Name
+	}
+	if g.ps.Flavor == 1 {
+		// While runtime/trace runs the runtime error is one the runtime raises by a call, not by a signal: with a
+		// sigpanic frame on the stack the execution tracer's frame-pointer unwinder (runtime.fpTracebackPCs, go1.23)
+		// now and then segfaults at the goroutine's next unpark and takes the whole harness down (about 1 run in
+		// 100). To the SDK both are the same thing: a runtime.Error unwinding through its frames.
+		_ = g.ps.Callers[len(g.ps.Callers)+p]
 	}
 	panic(userPanic{g})
 }
@@ -100,7 +107,7 @@ func (g *userGate) own(x any) bool {
 		return u.g == g
 	}
 	if e, ok := x.(runtime.Error); ok && g.ps.Flavor == 1 {
-		return strings.Contains(e.Error(), "nil pointer dereference")
+		return strings.Contains(e.Error(), "nil pointer dereference") || strings.Contains(e.Error(), "index out of range")
 	}
 	return false
 }
